@@ -70,7 +70,7 @@ type Drawing struct {
 type DrawItem struct {
 	Kind       string    `json:"kind"` // path | text
 	SharedFace int       `json:"shared_face,omitempty"`
-	Paint      int       `json:"paint,omitempty"` // 0 colour, 1 linear gradient, 2 radial gradient, 3 line hatch, 4 cross hatch
+	Paint      int       `json:"paint,omitempty"` // 0 colour, 1 linear gradient, 2 radial gradient, 3 line hatch, 4 cross hatch, 5-9 the run's shared paint objects
 	Shape      *Shape    `json:"shape,omitempty"`
 	Fill       [4]uint8  `json:"fill"`
 	Stroke     [4]uint8  `json:"stroke"`
